@@ -2,6 +2,7 @@ import VgiVerif.Model.C37
 import VgiVerif.Spec.C37
 import VgiVerif.Lemmas.UrlPy
 import VgiVerif.Lemmas.UrlWhatwg
+import VgiVerif.Lemmas.C37Cookie
 /-
 C37 property theorems.  Helper lemmas are in `namespace Aux`; the obligations audited by the check are the theorems
 `C37_*` at the end of each section.
@@ -616,6 +617,340 @@ theorem original_core (env : Env) (base : Url) (u0 pfx l : Str) (hp : PrefixOK p
       · exact hplain
     exact abspath_safe base pfx g' hcl hg' (dots_of_python g' hdots) hpfxc hpre
 
+/-! ## the dispatching validators are the repaired ones -/
+
+theorem validateReturnTo_eq (env : Env) (u : Str) (allow : List Str) :
+    validateReturnTo env u allow = validateReturnToRepaired env u allow := by
+  unfold validateReturnTo; rw [shape_rt]
+
+theorem validateOriginalUrl_eq (env : Env) (u pfx : Str) :
+    validateOriginalUrl env u pfx = validateOriginalUrlRepaired env u pfx := by
+  unfold validateOriginalUrl; rw [shape_ou]
+
+theorem repaired_total (env : Env) (u : Str) (allow : List Str) :
+    ∃ r, validateReturnToRepaired env u allow = .ok r ∧ (r = [] ∨ r = u) := by
+  unfold validateReturnToRepaired
+  split
+  · exact ⟨[], rfl, Or.inl rfl⟩
+  split
+  · exact ⟨[], rfl, Or.inl rfl⟩
+  split
+  · exact ⟨[], rfl, Or.inl rfl⟩
+  rename_i sp hsp
+  split
+  · exact ⟨[], rfl, Or.inl rfl⟩
+  split
+  · exact ⟨[], rfl, Or.inl rfl⟩
+  rename_i hsch
+  split
+  · exact ⟨[], rfl, Or.inl rfl⟩
+  split
+  · exact ⟨[], rfl, Or.inl rfl⟩
+  dsimp only
+  split
+  · exact ⟨u, rfl, Or.inr rfl⟩
+  split
+  · rename_i hnone
+    exfalso
+    have hmem : sp.scheme ∈ Gen.Pkce.returnToSchemes := by simpa using hsch
+    have := (scheme_facts _ hmem).2.2.2.1
+    rw [hnone] at this
+    simp at this
+  · split
+    · exact ⟨u, rfl, Or.inr rfl⟩
+    · exact ⟨[], rfl, Or.inl rfl⟩
+
+theorem repairedOU_total (env : Env) (u pfx : Str) : ∃ l, validateOriginalUrlRepaired env u pfx = .ok l := by
+  unfold validateOriginalUrlRepaired
+  dsimp only
+  repeat (first | exact ⟨_, rfl⟩ | split)
+
+/-! ## the callback -/
+
+theorem parsePayload_age (env : CEnv) (now maxAge : Int) (p : Bytes) (f : Fields)
+    (h : parsePayload env now maxAge p = .ok f) :
+    leVal (p.take Gen.Pkce.widthVersion) = Gen.Pkce.sessionCookieVersion ∧
+      (maxAge > 0 → 0 ≤ now - (leVal ((p.drop Gen.Pkce.widthVersion).take Gen.Pkce.widthCreated) : Int) ∧
+        now - (leVal ((p.drop Gen.Pkce.widthVersion).take Gen.Pkce.widthCreated) : Int) ≤ maxAge) := by
+  unfold parsePayload at h
+  split at h
+  · cases h
+  rename_i hv
+  dsimp only at h
+  split at h
+  · cases h
+  rename_i ha
+  refine ⟨by simpa using hv, ?_⟩
+  intro hpos
+  simp only [Bool.and_eq_true, Bool.or_eq_true, decide_eq_true_eq, not_and, not_or, Int.not_lt] at ha
+  have := ha hpos
+  omega
+
+/-- the callback issued a redirect -/
+def Completes (o : Outcome) : Prop := ∃ loc, o = .redirectExternal loc ∨ o = .redirectOriginal loc
+
+theorem callback_facts (uenv : Env) (cenv : CEnv) (cfg : Cfg) (key : Bytes) (now : Int) (req : CbReq)
+    (disc : Option Str) (ex : Exchange) (h : Completes (callback uenv cenv cfg key now req disc ex)) :
+    truthy req.error = false ∧ truthy req.code = true ∧ truthy req.state = true ∧ truthy req.sessionCookie = true ∧
+    ∃ f te token refresh, unpack cenv key now Gen.Pkce.sessionMaxAge (req.sessionCookie.getD []) = .ok f ∧
+      req.state.getD [] = f.stateNonce ∧ disc = some te ∧ ex = .ok token refresh ∧
+      ((f.returnTo ≠ [] ∧ callback uenv cenv cfg key now req disc ex =
+          .redirectExternal (redirectTarget f.returnTo (callbackParams cfg te token refresh))) ∨
+       (f.returnTo = [] ∧ ∃ loc, validateOriginalUrl uenv f.originalUrl cfg.pfx = .ok loc ∧
+          callback uenv cenv cfg key now req disc ex = .redirectOriginal loc)) := by
+  obtain ⟨loc0, h⟩ := h
+  unfold callback at h ⊢
+  split at h
+  · rcases h with h | h <;> cases h
+  rename_i h1
+  split at h
+  · rcases h with h | h <;> cases h
+  rename_i h2
+  split at h
+  · rcases h with h | h <;> cases h
+  rename_i h3
+  simp only [Bool.or_eq_true, Bool.not_eq_true', not_or, Bool.not_eq_false] at h2
+  simp only [Bool.not_eq_true', Bool.not_eq_false] at h3
+  refine ⟨by simpa using h1, h2.1, h2.2, h3, ?_⟩
+  simp only [h1, h2.1, h2.2, h3, Bool.not_true, Bool.or_self, Bool.false_eq_true, if_false]
+  split at h
+  · rcases h with h | h <;> cases h
+  · rcases h with h | h <;> cases h
+  rename_i f hf
+  rw [hf]
+  dsimp only at h ⊢
+  split at h
+  · rcases h with h | h <;> cases h
+  rename_i h4
+  split at h
+  · rcases h with h | h <;> cases h
+  rename_i h5
+  rw [if_neg h4, if_neg h5]
+  split at h
+  · rcases h with h | h <;> cases h
+  rename_i te
+  split at h
+  · rcases h with h | h <;> cases h
+  rename_i token refresh
+  refine ⟨f, te, token, refresh, rfl, by simpa using h5, rfl, rfl, ?_⟩
+  split at h
+  · rename_i h6
+    left
+    refine ⟨by simpa using h6, ?_⟩
+    rw [if_pos h6]
+  · rename_i h6
+    right
+    refine ⟨by simpa using h6, ?_⟩
+    rw [if_neg h6]
+    split at h
+    · rcases h with h | h <;> cases h
+    · rename_i loc hloc
+      exact ⟨loc, hloc, rfl⟩
+
 end Aux
+
+open Aux
+
+/-! # Property theorems (obligations) -/
+
+/-- the source has the repaired shape of both validators (extracted on every run; everything below depends on it) -/
+theorem C37_shapes : Gen.Pkce.returnToShape = .repaired ∧ Gen.Pkce.originalUrlShape = .repaired := ⟨shape_rt, shape_ou⟩
+
+/-- the constants of the running interpreter's `urllib.parse` / `str.lower` are the ones `Prelude/UrlPy` mirrors, and the
+extracted cookie layout is the one of the model -/
+theorem C37_mirror :
+    Gen.Pkce.schemeChars.map Char.toNat = (List.range 128).filter (fun n => isSchemeChar (Char.ofNat n)) ∧
+    Gen.Pkce.c0OrSpace.map Char.toNat = List.range 33 ∧
+    Gen.Pkce.unsafeUrlBytes = ['\t', '\n', '\r'] ∧
+    Gen.Pkce.lowerToAscii = [(0x130, [105, 0x307]), (0x212A, [107])] ∧
+    (Gen.Pkce.widthVersion, Gen.Pkce.widthCreated, Gen.Pkce.widthLen, Gen.Pkce.hmacLen) = (1, 8, 2, 32) := by
+  decide
+
+/-- **agreement lemma**: on a URL free of C0 controls, space and backslash, with a special scheme and a netloc without
+userinfo and brackets, the browser runs its host parser on exactly the text Python takes as host (before lower-casing)
+and its port state on exactly Python's port text. -/
+theorem C37_agree (env : Env) (base : Url) (u : Str) (sp : Split) (hc : Clean u) (hsplit : urlsplit env u = some sp)
+    (hsp : isSpecial sp.scheme = true) (hnf : isFile sp.scheme = false) (hn : sp.netloc ≠ [])
+    (h0 : '@' ∉ sp.netloc) (h1 : '[' ∉ sp.netloc) (h2 : ']' ∉ sp.netloc) :
+    ∃ R, parse base u = hostPort sp.scheme [] [] (hostinfo sp.netloc).1 ((hostinfo sp.netloc).2.getD []) R := by
+  obtain ⟨R, h⟩ := agree_core env base u sp hc hsplit hsp hnf hn h0 h1 h2 [] (Or.inl rfl)
+  refine ⟨R, ?_⟩
+  rw [List.append_nil] at h
+  rw [h, hostinfo_plain h0 h1]
+  dsimp only
+  split
+  · rename_i he
+    have : afterColon sp.netloc = [] := by simpa using he
+    rw [this]; rfl
+  · rfl
+
+/-- **return-to**: whatever `_validate_return_to` accepts is the URL itself, and with *any* token fragment appended the
+browser resolves it to an allow-listed origin or to an http loopback origin. -/
+theorem C37_return_to (env : Env) (base : Url) (u : Str) (allow : List Str) (r : Str) (hallow : AllowOK base allow)
+    (h : validateReturnTo env u allow = .ok r) (hr : r ≠ []) :
+    r = u ∧ ∀ t, SafeExternal base allow (redirectTarget r t) := by
+  rw [validateReturnTo_eq] at h
+  exact ⟨(repaired_accepts h hr).1, return_to_core env base u allow r hallow h hr⟩
+
+/-- `_validate_return_to` never raises and returns `""` or its argument -/
+theorem C37_return_to_total (env : Env) (u : Str) (allow : List Str) :
+    ∃ r, validateReturnTo env u allow = .ok r ∧ (r = [] ∨ r = u) := by
+  rw [validateReturnTo_eq]; exact repaired_total env u allow
+
+/-- **original URL**: `_validate_original_url` never raises, and what it returns is resolved by the browser to the
+service's own origin with a path under the prefix — for every input string. -/
+theorem C37_original (env : Env) (base : Url) (u pfx : Str) (hp : PrefixOK pfx) :
+    ∃ l, validateOriginalUrl env u pfx = .ok l ∧ SafeSameOrigin base pfx l := by
+  rw [validateOriginalUrl_eq]
+  obtain ⟨l, hl⟩ := repairedOU_total env u pfx
+  exact ⟨l, hl, original_core env base u pfx l hp hl⟩
+
+/-- **cookie round trip ⇔ age within bounds** -/
+theorem C37_cookie (env : CEnv) (hl : CEnvLaws env) (key : Bytes) (t : Nat) (f : Fields) (c : Str) (now maxAge : Int)
+    (hc : pack env key t f = some c) :
+    (unpack env key now maxAge c = .ok f ↔ (maxAge > 0 → 0 ≤ now - (t : Int) ∧ now - (t : Int) ≤ maxAge)) ∧
+    (¬ (maxAge > 0 → 0 ≤ now - (t : Int) ∧ now - (t : Int) ≤ maxAge) → unpack env key now maxAge c = .error .expired) := by
+  rw [unpack_pack env hl key t f c now maxAge hc]
+  by_cases hexp : expired now maxAge t
+  · rw [if_pos hexp]
+    unfold expired at hexp
+    refine ⟨⟨fun h => ?_, fun h => ?_⟩, fun _ => rfl⟩
+    · cases h
+    · have := h hexp.1
+      omega
+  · rw [if_neg hexp]
+    unfold expired at hexp
+    have hin : maxAge > 0 → 0 ≤ now - (t : Int) ∧ now - (t : Int) ≤ maxAge := by
+      intro hpos
+      have : ¬ (now - (t : Int) < 0 ∨ now - (t : Int) > maxAge) := fun h => hexp ⟨hpos, h⟩
+      omega
+    exact ⟨⟨fun _ => hin, fun _ => rfl⟩, fun hn => absurd hin hn⟩
+
+/-- **any other bytes → error**: `unpack` succeeds exactly on `base64(payload ‖ HMAC(key, payload))` whose payload has
+the version byte, an age within bounds and four well-formed fields. -/
+theorem C37_cookie_authentic (env : CEnv) (hl : CEnvLaws env) (key : Bytes) (now maxAge : Int) (c : Str) (f : Fields) :
+    unpack env key now maxAge c = .ok f ↔
+      ∃ payload, env.b64dec c = some (payload ++ env.mac key payload) ∧
+        Gen.Pkce.minCookieLen ≤ (payload ++ env.mac key payload).length ∧ parsePayload env now maxAge payload = .ok f :=
+  unpack_ok_iff env hl key now maxAge c f
+
+/-- with an unforgeable MAC (the only payloads for which a valid tag can be presented are the ones the server signed)
+an accepted cookie carries exactly the fields the server signed, and is not older than `maxAge` -/
+theorem C37_cookie_minted (env : CEnv) (hl : CEnvLaws env) (key : Bytes) (now maxAge : Int) (c : Str) (f : Fields)
+    (minted : Nat → Fields → Prop)
+    (hunf : ∀ payload, env.b64dec c = some (payload ++ env.mac key payload) →
+      ∃ t f', minted t f' ∧ packPayload env t f' = some payload)
+    (h : unpack env key now maxAge c = .ok f) :
+    ∃ t, minted t f ∧ (maxAge > 0 → 0 ≤ now - (t : Int) ∧ now - (t : Int) ≤ maxAge) := by
+  obtain ⟨payload, hdec, _, hparse⟩ := (unpack_ok_iff env hl key now maxAge c f).1 h
+  obtain ⟨t, f', hm, hp⟩ := hunf payload hdec
+  rw [parse_pack env hl t f' payload now maxAge hp] at hparse
+  by_cases hexp : expired now maxAge t
+  · rw [if_pos hexp] at hparse; cases hparse
+  · rw [if_neg hexp] at hparse
+    simp only [Except.ok.injEq] at hparse
+    subst hparse
+    refine ⟨t, hm, fun hpos => ?_⟩
+    unfold expired at hexp
+    omega
+
+/-- **callback**: it completes (issues a 302) only with a session cookie that is `base64(payload ‖ HMAC(key, payload))`
+(untampered), whose age is within `_SESSION_MAX_AGE` (unexpired), and whose state equals the `state` parameter. -/
+theorem C37_callback (uenv : Env) (cenv : CEnv) (hl : CEnvLaws cenv) (cfg : Cfg) (key : Bytes) (now : Int) (req : CbReq)
+    (disc : Option Str) (ex : Exchange) (h : Completes (callback uenv cenv cfg key now req disc ex)) :
+    ∃ cookie payload f, req.sessionCookie = some cookie ∧
+      cenv.b64dec cookie = some (payload ++ cenv.mac key payload) ∧
+      parsePayload cenv now Gen.Pkce.sessionMaxAge payload = .ok f ∧
+      (0 ≤ now - (leVal ((payload.drop Gen.Pkce.widthVersion).take Gen.Pkce.widthCreated) : Int) ∧
+        now - (leVal ((payload.drop Gen.Pkce.widthVersion).take Gen.Pkce.widthCreated) : Int) ≤ Gen.Pkce.sessionMaxAge) ∧
+      req.state = some f.stateNonce := by
+  obtain ⟨_, _, hst, hck, f, te, token, refresh, hun, hstate, _⟩ := callback_facts uenv cenv cfg key now req disc ex h
+  cases hc : req.sessionCookie with
+  | none => rw [hc] at hck; simp [truthy] at hck
+  | some cookie =>
+    rw [hc] at hun
+    simp only [Option.getD_some] at hun
+    obtain ⟨payload, hdec, _, hparse⟩ := (unpack_ok_iff cenv hl key now _ cookie f).1 hun
+    refine ⟨cookie, payload, f, rfl, hdec, hparse, (parsePayload_age cenv now _ payload f hparse).2 (by decide), ?_⟩
+    cases hs : req.state with
+    | none => rw [hs] at hst; simp [truthy] at hst
+    | some s => rw [hs] at hstate; simp only [Option.getD_some] at hstate; rw [hstate]
+
+/-- what `process_response` signs into a session cookie -/
+def Issued (uenv : Env) (cfg : Cfg) (f : Fields) : Prop :=
+  ∃ path query rtParam, processResponse uenv cfg sGet true true true path query rtParam = .ok (some (f.originalUrl, f.returnTo))
+
+/-- **the flow**: with an unforgeable MAC (a presented `payload ‖ tag` verifies only for payloads `process_response`
+signed), every `Location` the browser flow issues is safe: the callback's external redirect and the immediate redirect of
+`process_request` resolve to an allow-listed or loopback origin whatever tokens are appended; the callback's same-origin
+redirect and the logout redirect resolve to the service origin under the prefix. -/
+theorem C37_flow (uenv : Env) (cenv : CEnv) (hl : CEnvLaws cenv) (cfg : Cfg) (key : Bytes) (now : Int) (req : CbReq)
+    (disc : Option Str) (ex : Exchange) (base : Url) (hp : PrefixOK cfg.pfx) (ha : AllowOK base cfg.allow)
+    (hmac : ∀ payload, cenv.b64dec (req.sessionCookie.getD []) = some (payload ++ cenv.mac key payload) →
+      ∃ t f', Issued uenv cfg f' ∧ packPayload cenv t f' = some payload) :
+    (∀ loc, callback uenv cenv cfg key now req disc ex = .redirectExternal loc → SafeExternal base cfg.allow loc) ∧
+    (∀ loc, callback uenv cenv cfg key now req disc ex = .redirectOriginal loc → SafeSameOrigin base cfg.pfx loc) ∧
+    (∀ method rt ac je loc, processRequest uenv cfg method rt ac je = .ok (some loc) → SafeExternal base cfg.allow loc) ∧
+    SafeSameOrigin base cfg.pfx (logoutLocation cfg) := by
+  refine ⟨?_, ?_, ?_, ?_⟩
+  · intro loc hloc
+    obtain ⟨_, _, _, _, f, te, token, refresh, hun, _, _, _, hcase⟩ :=
+      callback_facts uenv cenv cfg key now req disc ex ⟨loc, Or.inl hloc⟩
+    rcases hcase with ⟨hrt, heq⟩ | ⟨_, loc', _, heq⟩
+    · rw [hloc] at heq
+      simp only [Outcome.redirectExternal.injEq] at heq
+      obtain ⟨t, hissued, _⟩ := C37_cookie_minted cenv hl key now _ _ f (fun _ f' => Issued uenv cfg f') hmac hun
+      obtain ⟨path, query, rtParam, hpr⟩ := hissued
+      unfold processResponse at hpr
+      simp only [bne_self_eq_false, Bool.false_eq_true, if_false, Bool.not_true] at hpr
+      split at hpr
+      · cases hpr
+      split at hpr
+      · cases hpr
+      rename_i rt hrt'
+      simp only [Except.ok.injEq, Option.some.injEq, Prod.mk.injEq] at hpr
+      rw [hpr.2] at hrt'
+      rw [heq]
+      exact (C37_return_to uenv base _ cfg.allow f.returnTo ha hrt' hrt).2 _
+    · rw [hloc] at heq; cases heq
+  · intro loc hloc
+    obtain ⟨_, _, _, _, f, te, token, refresh, _, _, _, _, hcase⟩ :=
+      callback_facts uenv cenv cfg key now req disc ex ⟨loc, Or.inr hloc⟩
+    rcases hcase with ⟨_, heq⟩ | ⟨_, loc', hval, heq⟩
+    · rw [hloc] at heq; cases heq
+    · rw [hloc] at heq
+      simp only [Outcome.redirectOriginal.injEq] at heq
+      subst heq
+      rw [validateOriginalUrl_eq] at hval
+      exact original_core uenv base _ _ _ hp hval
+  · intro method rt ac je loc h
+    unfold processRequest at h
+    split at h
+    · cases h
+    split at h
+    · cases h
+    rename_i r hr
+    split at h
+    · cases h
+    rename_i hne
+    split at h
+    · cases h
+    split at h
+    · cases h
+    simp only [Except.ok.injEq, Option.some.injEq] at h
+    rw [← h]
+    exact (C37_return_to uenv base _ cfg.allow r ha hr (by simpa using hne)).2 _
+  · obtain ⟨l, hl, hs⟩ := C37_original uenv base [] cfg.pfx hp
+    -- the fallback is what the validator returns for the empty string
+    have : l = fallback cfg.pfx := by
+      rw [validateOriginalUrl_eq] at hl
+      rcases repairedOU_accepts hl with h | ⟨_, hsl, _⟩
+      · exact h
+      · have : truncateUrl [] = [] := rfl
+        unfold validateOriginalUrlRepaired at hl
+        simp [this, hasUnsafeChars, sSlash, urlsplit, UrlPy.preprocess, splitScheme, netlocOf, splitPQF, partition] at hl
+        exact hl.symm
+    rw [this] at hs
+    exact hs
 
 end VgiVerif.C37
